@@ -29,7 +29,7 @@ PROPS = [f"C{i:02d}" for i in range(1, 21)]
 
 
 def one(d: str) -> dict:
-    d = pathlib.Path(d)
+    d = pathlib.Path(d).resolve()
     patch = d / "patch.diff"
     scratch = make_scratch(pathlib.Path("/repo"))
     try:
@@ -58,15 +58,24 @@ def main() -> int:
         args = sorted(str(p.parent) for p in (VERIF / "seeded").glob("*/patch.diff"))
     with cf.ProcessPoolExecutor(max_workers=min(16, max(1, len(args)))) as ex:
         res = list(ex.map(one, args))
+    if "--matrix" in sys.argv or True:
+        own_miss, cross = [], []
     for r in res:
         meta = pathlib.Path(r["dir"]) / "meta.json"
         want = json.loads(meta.read_text()).get("property") if meta.exists() else "?"
         if "error" in r:
             print(f"{r['dir']}: {r['error']}")
             continue
-        fired = r["fired"]
-        status = "CAUGHT" if fired else "MISSED"
-        print(f"{status} {r['dir']} (breaks {want}): " + ("; ".join(f"{k}: {v[:3]}" for k, v in fired.items()) if fired else "no rule fired"))
+        fired = {k: [x for x in v if not x.startswith(("ANALYSIS-ERROR", "CRASH"))] for k, v in r["fired"].items()}
+        errs = {k: v for k, v in r["fired"].items() if any(x.startswith(("ANALYSIS-ERROR", "CRASH")) for x in v)}
+        fired = {k: v for k, v in fired.items() if v}
+        own = want in fired
+        name = pathlib.Path(r["dir"]).name
+        others = sorted(k for k in fired if k != want)
+        print(f"{'CAUGHT' if own else 'MISSED-BY-OWN'} {name} (breaks {want}): own={fired.get(want, [])[:2]} others={others}" + (f" ERRORS={sorted(errs)}" if errs else ""))
+        if not own:
+            own_miss.append(name)
+    print(f"\n{len(res)} seeded changes; missed by the check of their own property: {own_miss}")
     return 0
 
 
